@@ -39,9 +39,16 @@ impl Token<'_> {
     }
 }
 
+/// The maximum depth of nested expressions and blocks.
+/// The parser, the compiler and the destructor of the AST all recurse over the tree,
+/// so this is what keeps deeply nested input from overflowing the native stack.
+const MAX_DEPTH: usize = 256;
+
 struct Parser<'a> {
     tokenizer: Tokenizer<'a>,
     current_token: Token<'a>,
+    /// Current nesting depth, see MAX_DEPTH
+    depth: usize,
 }
 
 impl<'a> Parser<'a> {
@@ -52,6 +59,7 @@ impl<'a> Parser<'a> {
         Parser {
             tokenizer,
             current_token,
+            depth: 0,
         }
     }
 
@@ -82,6 +90,18 @@ impl<'a> Parser<'a> {
         }
     }
 
+    /// Enter a nested expression or block
+    #[inline]
+    fn descend(&mut self) -> Result<(), ParseError> {
+        self.depth += 1;
+        if self.depth > MAX_DEPTH {
+            return Err(ParseError::SyntaxError(format!(
+                "te diep geneste expressie (maximaal {MAX_DEPTH} niveaus)"
+            )));
+        }
+        Ok(())
+    }
+
     /// Parses an operator token
     fn parse_operator(&mut self) -> Operator {
         Operator::from(self.current_token)
@@ -90,6 +110,15 @@ impl<'a> Parser<'a> {
     /// Parse an expression
     #[inline]
     fn parse_expr(&mut self, precedence: Precedence) -> Result<Expr, ParseError> {
+        self.descend()?;
+        let depth = self.depth;
+        let result = self.parse_expr_inner(precedence);
+        self.depth = depth - 1;
+        result
+    }
+
+    #[inline]
+    fn parse_expr_inner(&mut self, precedence: Precedence) -> Result<Expr, ParseError> {
         let mut left = match self.current_token {
             Token::Int(s) => self.parse_int_expression(s)?,
             Token::Float(s) => self.parse_float_expression(s)?,
@@ -118,6 +147,8 @@ impl<'a> Parser<'a> {
 
         // keep going
         while self.current_token != Token::Semi && precedence < self.current_token.precedence() {
+            // every operator of a chain like 1 + 1 + 1 ... makes the tree one level deeper
+            self.descend()?;
             left = match self.current_token {
                 Token::Lt
                 | Token::Lte
@@ -489,6 +520,14 @@ impl<'a> Parser<'a> {
     /// Parse a block (surrounded by curly braces)
     /// Can be an unnamed block, function body, if consequence, etc.
     fn parse_block_statement(&mut self) -> Result<BlockStmt, ParseError> {
+        self.descend()?;
+        let depth = self.depth;
+        let result = self.parse_block_statement_inner();
+        self.depth = depth - 1;
+        result
+    }
+
+    fn parse_block_statement_inner(&mut self) -> Result<BlockStmt, ParseError> {
         let mut block = BlockStmt::with_capacity(8);
         self.skip(Token::OpenBrace)?;
 
